@@ -98,3 +98,26 @@ SCHEMA = {
     },
     'XMLDocParser': {'_memory': 'dict[str,int]', '_verbose': 'bool'},
 }
+
+
+def tree_schema():
+    """Stricter typing for *instantiated trees handed to the generators*: every node hangs in a
+    Namespace (or Class), members know their class.  Established by Module.parseString +
+    instantiate_namespace (C01/C08 contracts) and checked at run time by the bounded tier."""
+    import copy
+    s = copy.deepcopy(SCHEMA)
+    node = ('ref:Include|ref:Namespace|ref:Enum|ref:InstantiatedClass|ref:InstantiatedDeclaration|'
+            'ref:GlobalFunction|ref:Variable|ref:ForwardDeclaration|ref:TypedefTemplateInstantiation|ref:Class')
+    s['Namespace']['content'] = 'list[%s]' % node
+    for c in ('Class', 'GlobalFunction', 'Enum', 'Include', 'ForwardDeclaration', 'TypedefTemplateInstantiation'):
+        s[c]['parent'] = 'ref:Namespace'
+    s['Enum']['parent'] = 'ref:Namespace|ref:Class'
+    s['Variable']['parent'] = 'ref:Namespace|ref:Class'
+    for c in ('Method', 'StaticMethod', 'Constructor', 'Operator', 'DunderMethod'):
+        s[c]['parent'] = 'ref:Class'
+    s['MatlabWrapper']['ignore_classes'] = 'list[str]|tuple[str]'
+    s['MatlabWrapper']['content'] = 'list[any]'
+    return s
+
+
+TREE_SCHEMA = tree_schema()
